@@ -48,6 +48,24 @@ fn current_hash(dst: &Path) -> Option<Hash> {
     super::meta::fingerprint_path(dst).ok().map(|f| f.blake3)
 }
 
+/// The hash a compare-and-swap is decided on. A path that is not there — or is a
+/// directory — has none; content that is there but cannot be read is an ERROR, not
+/// "absent": deciding a CAS on a guess would let a client that believes the path is
+/// empty replace content it has never seen.
+fn cas_current(dst: &Path) -> std::io::Result<Option<Hash>> {
+    match std::fs::symlink_metadata(dst) {
+        Err(e) if e.kind() == std::io::ErrorKind::NotFound => return Ok(None),
+        Err(e) => return Err(e),
+        Ok(m) if m.is_dir() => return Ok(None),
+        Ok(_) => {}
+    }
+    match super::meta::fingerprint_path(dst) {
+        Ok(f) => Ok(Some(f.blake3)),
+        Err(e) if e.kind() == std::io::ErrorKind::NotFound => Ok(None),
+        Err(e) => Err(e),
+    }
+}
+
 /// Run `f` while holding the tree's exclusive commit lock (brief, local — never
 /// across a client round-trip), giving linearizable commits across processes.
 fn with_commit_lock<T>(lockdir: &Path, f: impl FnOnce() -> T) -> std::io::Result<T> {
@@ -175,7 +193,13 @@ fn handle_put<R: Read, W: Write>(
         return write_frame(w, &Response::Error("content hash mismatch".into()));
     }
     let resp = with_commit_lock(lockdir, || {
-        let current = current_hash(&dst);
+        let current = match cas_current(&dst) {
+            Ok(c) => c,
+            Err(e) => {
+                let _ = std::fs::remove_file(&tmp);
+                return Response::Error(format!("cannot read the current content: {e}"));
+            }
+        };
         match cas_decide(current, expected) {
             Cas::Commit => match std::fs::rename(&tmp, &dst) {
                 Ok(()) => Response::PutResult {
@@ -251,7 +275,10 @@ fn handle_delete<W: Write>(
         return write_frame(w, &Response::Error("bad path".into()));
     };
     let resp = with_commit_lock(lockdir, || {
-        let current = current_hash(&dst);
+        let current = match cas_current(&dst) {
+            Ok(c) => c,
+            Err(e) => return Response::Error(format!("cannot read the current content: {e}")),
+        };
         match cas_decide(current, expected) {
             Cas::Commit => match std::fs::remove_file(&dst) {
                 Err(e) if e.kind() != std::io::ErrorKind::NotFound => {
